@@ -228,6 +228,20 @@ def make_pool(seed, shard, size=8):
                 ext_sets.append(_ext_of(doc, loc))
                 doc = r2[0]
         exts.append(ext_sets)
+        # one free-text value that is legal under one interchange version only (backtick: 5010 extended set), the
+        # same text in every pool document, so that a verdict remembered across versions would show
+        for sg in doc.segs:
+            if sg.id in ('ISA', 'GS', 'ST', 'SE', 'GE', 'IEA'):
+                continue
+            hit = False
+            for ei, c in enumerate(sg.node.children):
+                if c.kind == 'ele' and c.dtype == 'AN' and not c.codes and not c.ext and c.maxl >= 3 and c.minl <= 3 \
+                        and ei > 0 and ei < len(sg.vals) and sg.vals[ei][0] != '':
+                    sg.vals[ei] = ['P`Q']
+                    hit = True
+                    break
+            if hit:
+                break
         docs.append(doc.text())
         types.append(e['file'])
         cands = sorted({l.id for s in doc.segs for l, n in s.chain if l.children and l.children[0].kind == 'seg'})
